@@ -1,8 +1,9 @@
 (* all T2 ops in one driver (used to validate the translator as a whole; the property checks
-   use the per-file drivers DrvT2Ratio / DrvT2Cells / DrvT2Measure / DrvT2Span so that one
+   use the per-file drivers DrvT2Ratio / DrvT2Cells / DrvT2Measure / DrvT2Span / DrvT2Color / DrvT2Live / DrvT2Segment / DrvT2Progress / DrvT2Style / DrvT2Bar / DrvT2ProgressBar so that one
    generated file that does not build cannot take another property's driver down) *)
 From RichModel Require Import Prelude.
-From RichModel Require DrvT2Ratio DrvT2Cells DrvT2Measure DrvT2Span.
+From RichModel Require DrvT2Ratio DrvT2Cells DrvT2Measure DrvT2Span DrvT2Color DrvT2Live DrvT2Segment DrvT2Progress DrvT2Style DrvT2Bar DrvT2ProgressBar.
 
 Definition ops : list (string * (tree -> tree)) :=
-  DrvT2Ratio.ops ++ DrvT2Cells.ops ++ DrvT2Measure.ops ++ DrvT2Span.ops.
+  DrvT2Ratio.ops ++ DrvT2Cells.ops ++ DrvT2Measure.ops ++ DrvT2Span.ops
+  ++ DrvT2Color.ops ++ DrvT2Live.ops ++ DrvT2Segment.ops ++ DrvT2Progress.ops ++ DrvT2Style.ops ++ DrvT2Bar.ops ++ DrvT2ProgressBar.ops.
